@@ -15,7 +15,7 @@ META = {
     "level_text": "Exhaustive within bounds on the model (2 ECUs, 3 lifecycles in parallel, window 1-3 s, <=3(4,5) messages, "
                   "reception deltas incl. backwards, delays inside/at/beyond the bound, control requests, timestamps beyond "
                   "rx) with zero tolerated unexplained drift between model and code on all those behaviours; random streams "
-                  "(<=120(600) messages, 1-4 ECUs, windows 1-5 s, D 0-20 s, ticks of 1 s and 0.1 s) are validated one by "
+                  "(<=120(400) messages, 1-4 ECUs, windows 1-5 s, D 0-20 s, ticks of 1 s and 0.1 s) are validated one by "
                   "one by TLC against the property-shaped contract.",
     "level_note": "Trusted: TLC, the driver projection (position tag in the payload, full-field equality = intact). "
                   "Narrow readings: 'ties in original order' is checked with consecutively increasing message indices "
@@ -124,8 +124,8 @@ def check(ctx):
         if cov[k] == 0:
             raise c.ToolError("vacuous scenario set: no TLC scenario exercises path '%s'" % k)
     # (c,d) replay on the real code (prediction fast path) + random streams (always traced)
-    nrand, ndet, maxlen = (1500, 300, 120) if quick else (12000, 2500, 600)
-    info = drive(binp, ["--scenarios", scn, "--sample", "400" if quick else "2000", "--random", str(nrand), "--det", str(ndet),
+    nrand, ndet, maxlen = (1500, 300, 120) if quick else (8000, 2000, 400)
+    info = drive(binp, ["--scenarios", scn, "--sample-every", str(max(1, nscn // (400 if quick else 2000))), "--random", str(nrand), "--det", str(ndet),
                         "--seed", str(ctx.seed), "--max-len", str(maxlen)], trace)
     # (e) TLC validates every recorded run against the contract
     v = c.validate_trace(ctx, "sorter", "SorterTrace.tla", trace, timeout=3000)
